@@ -45,6 +45,8 @@ for _cfg in (('core_maths', 3), ('core_maths', 4)):
     for _P in (1, 2):
         DIRECTED.append(dict(cfg=_cfg, kind='gen', P_obs=_P, P_first=_P, ops=['gen_faulty_inproc']))
         DIRECTED.append(dict(cfg=_cfg, kind='gen', P_obs=_P, P_first=_P, ops=['gen_faulty_inproc', 'gen_faulty_inproc']))
+DIRECTED.append(dict(cfg=('core_maths', 3), kind='fit', stage='combine', P_obs=1, P_first=1, ipe=False, prior_changed=True, ops=['pipe_same']))
+DIRECTED.append(dict(cfg=('core_maths', 4), kind='fit', stage='combine', P_obs=2, P_first=2, ipe=False, prior_changed=True, ops=['pipe_same', 'pipe_other_like']))
 for _st in STAGES:
     DIRECTED.append(dict(cfg=('core_maths', 3), kind='fit', stage=_st, P_obs=1, P_first=2, ipe=False, ops=['pipe_synth']))
 DIRECTED.append(dict(cfg=('core_maths', 4), kind='gen', P_obs=1, P_first=1, ops=['pipe_synth']))
@@ -128,7 +130,8 @@ def draw_history(seed, i, quick, recipe=None):
                 libs.add((rn, cc))
 
     def need_like(name, lk):
-        if name not in likes_here:
+        # users often build a new likelihood object per complexity / per stage call: rebuild it half of the time
+        if name not in likes_here or rng.random() < 0.5:
             cur().append(['like', dict(lk, name=name)])
             likes_here.add(name)
     ipe_mode = recipe.get('ipe_mode') or ('all' if ipe else rng.choice(['none', 'none', 'mixed']))
@@ -247,6 +250,10 @@ def draw_history(seed, i, quick, recipe=None):
         from .jobs import STAGE_INPUTS
         for f in STAGE_INPUTS[stage]:
             pairs.append([od + '/' + f % n, 'snap/in/' + f % n])
+        if stage == 'combine' and recipe.get('prior_changed', rng.random() < 0.15):
+            # the function-prior file of the library is replaced (same length, other values) after earlier rankings used it
+            cur().append(['rewrite_prior', dict(runname=runname, compl=n, mode=rng.choice(['reverse', 'shift']))])
+            desc.append('function prior file replaced')
         cur().append(['snapshot', dict(pairs=pairs)])
         cur().append(['npseed', dict(seed=npseed)])
         kw = dict(stage=stage, comp=n, like='Lobs')
